@@ -35,6 +35,7 @@ type MemoryStore struct {
 	nowFn                    func() time.Time
 	items                    map[string]*Envelope
 	attempts                 []DeliveryAttempt
+	attemptIDs               map[string]struct{}
 	trendRows                []backlogTrendRow
 	order                    []string
 	leases                   map[string]string // lease_id -> item_id
@@ -1774,6 +1775,16 @@ func (s *MemoryStore) RecordAttempt(attempt DeliveryAttempt) error {
 	if attempt.Outcome == "" {
 		attempt.Outcome = AttemptOutcomeRetry
 	}
+
+	// The attempt id is the primary key of the SQL backends' attempt table;
+	// Postgres answers a duplicate with ErrEnvelopeExists.
+	if _, ok := s.attemptIDs[attempt.ID]; ok {
+		return ErrEnvelopeExists
+	}
+	if s.attemptIDs == nil {
+		s.attemptIDs = make(map[string]struct{})
+	}
+	s.attemptIDs[attempt.ID] = struct{}{}
 
 	s.attempts = append(s.attempts, attempt)
 	return nil
